@@ -8,6 +8,7 @@
 //!   {"k":"mod", ...}     module children (incl. re-exports) with visibility
 //!   {"k":"kw", ...}      rustc's keyword table (once per crate; cheap)
 //!   {"k":"fn", ...}      every body owner: locals, blocks, statements, terminators (from mir_built)
+//!   {"k":"eqop", ...}    HIR binary expressions whose two operands are the same source text (no calls, not from a macro)
 #![feature(rustc_private)]
 #![allow(clippy::all)]
 
@@ -654,6 +655,40 @@ impl<'tcx> Cx<'tcx> {
     }
 }
 
+struct EqOp<'a, 'tcx> {
+    cx: &'a Cx<'tcx>,
+    owner: String,
+    out: &'a mut String,
+    seen: &'a mut usize,
+}
+
+impl<'a, 'tcx> rustc_hir::intravisit::Visitor<'tcx> for EqOp<'a, 'tcx> {
+    fn visit_expr(&mut self, e: &'tcx rustc_hir::Expr<'tcx>) {
+        if let rustc_hir::ExprKind::Binary(op, l, r) = e.kind {
+            *self.seen += 1;
+            if !e.span.from_expansion() && !l.span.from_expansion() && !r.span.from_expansion() {
+                let sm = self.cx.tcx.sess.source_map();
+                if let (Ok(a), Ok(b)) = (sm.span_to_snippet(l.span), sm.span_to_snippet(r.span)) {
+                    let norm = |s: &str| s.chars().filter(|c| !c.is_whitespace()).collect::<String>();
+                    if norm(&a) == norm(&b) && !a.contains('(') && !a.trim().is_empty() {
+                        let (file, line, _) = self.cx.span_info(e.span);
+                        let _ = writeln!(
+                            self.out,
+                            "{{\"k\":\"eqop\",\"fn\":{},\"file\":{},\"ln\":{},\"op\":{},\"text\":{}}}",
+                            js(&self.owner),
+                            js(&file),
+                            line,
+                            js(op.node.as_str()),
+                            js(&a)
+                        );
+                    }
+                }
+            }
+        }
+        rustc_hir::intravisit::walk_expr(self, e);
+    }
+}
+
 struct Cb;
 
 impl Callbacks for Cb {
@@ -693,6 +728,15 @@ impl Callbacks for Cb {
             for (def, body) in bodies.iter() {
                 cx.dump_body(&mut out, *def, body);
             }
+            let mut seen = 0usize;
+            for def in tcx.hir_body_owners() {
+                if let Some(bid) = tcx.hir_maybe_body_owned_by(def) {
+                    let owner = tcx.def_path_str(def.to_def_id());
+                    let mut v = EqOp { cx: &cx, owner, out: &mut out, seen: &mut seen };
+                    rustc_hir::intravisit::Visitor::visit_expr(&mut v, bid.value);
+                }
+            }
+            let _ = writeln!(out, "{{\"k\":\"eqop_scan\",\"binary\":{}}}", seen);
         })));
         let path = format!("{}/{}-{}.jsonl", out_dir, krate, sid);
         let tmp = format!("{}.tmp{}", path, std::process::id());
